@@ -58,10 +58,12 @@ func genConstants() {
 	root := parseFile("command/root.go")
 	chunkSize := int64(-1)
 	emptyRunsOnce := false
+	sharedMethodLockedG := false
 	if fd := findFunc(root, "", "startPortScanEngine"); fd == nil {
 		problem("startPortScanEngine: not found")
 	} else {
 		var loop *ast.ForStmt
+		sharedMethodLocked := false
 		for _, st := range fd.Body.List {
 			switch s := st.(type) {
 			case *ast.AssignStmt:
@@ -71,6 +73,9 @@ func genConstants() {
 					} else {
 						problem("startPortScanEngine: chunkSize is not a literal")
 					}
+				} else if src(s) == "method := &lockedPacketMethod{PacketMethod: conf.scanMethod}" {
+					// every engine run gets the one scan method behind one mutex (checked below)
+					sharedMethodLocked = true
 				} else {
 					problem("startPortScanEngine: unexpected statement %q", src(s))
 				}
@@ -92,6 +97,7 @@ func genConstants() {
 				problem("startPortScanEngine: unexpected statement %q", src(st))
 			}
 		}
+		sharedMethodLockedG = sharedMethodLocked
 		if loop == nil {
 			problem("startPortScanEngine: no chunk loop")
 		} else {
@@ -105,6 +111,21 @@ func genConstants() {
 				"newConf.scanRange.Ports = conf.scanRange.Ports[i:end]",
 				"if err := startPacketScanEngine(ctx, &newConf); err != nil { return err }",
 			}
+			if sharedMethodLocked {
+				want = append(want[:3], append([]string{"newConf.scanMethod = method"}, want[3:]...)...)
+				// lockedPacketMethod.ProcessPacketData: lock, deferred unlock, the embedded method's own call, nothing else
+				lm := findFunc(root, "lockedPacketMethod", "ProcessPacketData")
+				wantLM := []string{"m.mu.Lock()", "defer m.mu.Unlock()", "return m.PacketMethod.ProcessPacketData(data, ci)"}
+				if lm == nil || len(lm.Body.List) != len(wantLM) {
+					problem("lockedPacketMethod.ProcessPacketData: not lock / deferred unlock / delegate")
+				} else {
+					for i, st := range lm.Body.List {
+						if src(st) != wantLM[i] {
+							problem("lockedPacketMethod.ProcessPacketData: statement %d is %q", i, src(st))
+						}
+					}
+				}
+			}
 			if len(loop.Body.List) != len(want) {
 				problem("startPortScanEngine: loop body has %d statements", len(loop.Body.List))
 			} else {
@@ -117,6 +138,7 @@ func genConstants() {
 		}
 	}
 	c.nat("chunkSize", chunkSize, "`chunkSize` of `startPortScanEngine` (command/root.go)")
+	c.boolean("chunksShareLockedMethod", sharedMethodLockedG, "the engine runs of a chunked port scan share one scan method whose `ProcessPacketData` is behind one mutex")
 	c.boolean("emptyRunsOnce", emptyRunsOnce, "`startPortScanEngine` runs one engine when there are no port ranges (pairs file)")
 
 	// ---- channel capacities: make(chan T, N) per function ----
